@@ -422,6 +422,7 @@ pub struct Session<'c, 'm> {
     pub alt: &'c MCTPSMBusContext<'m>,
     pub out: String,
     pub nops: usize,
+    pub nvend: usize,
 }
 
 impl<'c, 'm> Session<'c, 'm> {
@@ -551,7 +552,7 @@ pub fn with_session<F: FnOnce(&mut Session)>(id: u64, stratum: &str, cfg: &Cfg, 
             let _ = catch_unwind(AssertUnwindSafe(|| { let _ = alt.process_packet(&b[..n], &mut rb); }));
         }
     }
-    let mut s = Session { ctx: &mut ctx, alt: &alt, out: String::new(), nops: 0 };
+    let mut s = Session { ctx: &mut ctx, alt: &alt, out: String::new(), nops: 0, nvend: cfg.vendor_ids.len() };
     let _ = writeln!(s.out, "C {} {}", id, stratum);
     let _ = write!(s.out, "G {} {} {}", cfg.addr, hex(&cfg.msg_types), cfg.vendor_ids.len());
     for (f, d, n) in &cfg.vendor_ids {
